@@ -286,3 +286,25 @@ func (w *World) allFuncs() map[*ssa.Function]bool {
 	}
 	return out
 }
+
+// teardownBody: the function that holds the association teardown. Shutdown itself, or, when
+// Shutdown only runs a function once (sync.Once.Do), that function.
+func (w *World) teardownBody(prop string) *ssa.Function {
+	sh := w.Fn(prop, "pfcpiface.(*PFCPConn).Shutdown")
+	var body *ssa.Function
+	n := 0
+	allInstrs(sh, func(i ssa.Instruction) {
+		c, ok := i.(*ssa.Call)
+		if !ok {
+			return
+		}
+		n++
+		if calleeName(c) == "(*sync.Once).Do" && len(c.Call.Args) == 2 {
+			body = closureOf(c.Call.Args[1])
+		}
+	})
+	if body != nil && n == 1 {
+		return body
+	}
+	return sh
+}
